@@ -120,6 +120,18 @@ def _ctx_fn(name, e, impl, calls, held=None):
     return fn
 
 
+def types_value(spec):
+    """the `state_types` argument of an expression-defined composite operation in the form the spec asks for"""
+    form = spec.get("types_form", "tuple")
+    if form == "str":      # spelled by name ("Fock", "Polarization", "CustomState"), which the library resolves
+        return tuple(KINDCLS[k].__name__ for k in spec["state_types"])
+    if form == "list":     # a caller-owned mutable list of classes
+        return [KINDCLS[k] for k in spec["state_types"]]
+    if form == "mixed":    # a caller-owned list mixing names and classes
+        return [KINDCLS[k].__name__ if i % 2 else KINDCLS[k] for i, k in enumerate(spec["state_types"])]
+    return tuple(KINDCLS[k] for k in spec["state_types"])
+
+
 def build_operation(spec, calls=None, held=None):
     """real Operation from a JSON spec"""
     fam, typ = spec["fam"], spec["type"]
@@ -138,7 +150,7 @@ def build_operation(spec, calls=None, held=None):
         kw["expr"] = build_expr(spec["expr"])
         kw["context"] = build_context(spec["context"], True, calls, held)
     if "state_types" in spec:
-        kw["state_types"] = tuple(KINDCLS[k] for k in spec["state_types"])
+        kw["state_types"] = types_value(spec)
     return Operation(T, **kw)
 
 
